@@ -12,6 +12,8 @@ import RedisVerif.Model.Wal
     t <seq> <len>                             → recoverAll (base with file seq cut to len)
     x <seq> <pos> <val>                       → recoverAll (base with one byte replaced)
     a <seq> <hex>                             → recoverAll (base with bytes appended to file seq)
+    w <seq> <pos> <hex>                       → recoverAll (base with the bytes written over position pos.., clipped to the file)
+    ta <seq> <len> <hex>                      → recoverAll (base with file seq cut to len, then bytes appended)
     T <T> <active|->                          → truncateBefore on base: deleted count + remaining seqs
     F <t> <nbad> {<hex>}*                     → recoverAfter t on base; payloads listed do not deserialise
     Fa <seq> <hex> <t> <nbad> {<hex>}*        → same on (base with bytes appended to file seq)
@@ -57,6 +59,10 @@ def modFile (img : Image) (seq : Nat) (f : Bytes → Bytes) : Image :=
     only used to print which deltas came back) -/
 def keyOf (d : Bytes) : Bytes := (d.drop 8).take (leVal (d.take 8))
 
+/-- write `v` over `b` starting at `pos`, clipped to the length of `b` -/
+def overwrite (b : Bytes) (pos : Nat) (v : Bytes) : Bytes :=
+  b.take pos ++ (v.take (b.length - pos) ++ b.drop (pos + v.length))
+
 def showOptDeltas : Option (List Bytes) → String
   | none => "err"
   | some ds => " ".intercalate (toString ds.length :: ds.map (fun d => hexOfBytes (keyOf d)))
@@ -72,6 +78,8 @@ inductive Op where
   | cut (seq len : Nat)
   | setByte (seq pos val : Nat)
   | appendBytes (seq : Nat) (b : Bytes)
+  | overwrite (seq pos : Nat) (b : Bytes)
+  | cutAppend (seq len : Nat) (b : Bytes)
   | trunc (T : Nat) (active : Option Nat)
   | after (app : Option (Nat × Bytes)) (t : Nat) (bad : List Bytes)
 
@@ -90,6 +98,8 @@ def opP : P Op := do
   | "t" => do let s ← nat; let l ← nat; pure (.cut s l)
   | "x" => do let s ← nat; let p ← nat; let v ← nat; pure (.setByte s p v)
   | "a" => do let s ← nat; let b ← bytesTok; pure (.appendBytes s b)
+  | "w" => do let s ← nat; let p ← nat; let b ← bytesTok; pure (.overwrite s p b)
+  | "ta" => do let s ← nat; let l ← nat; let b ← bytesTok; pure (.cutAppend s l b)
   | "T" => do let T ← nat; let a ← optNat; pure (.trunc T a)
   | "F" => do
     let t ← nat
@@ -122,6 +132,8 @@ def step (st : St) (line : String) : St × String :=
     | .cut s l => (st, showEntries (recoverAll fmt crc (modFile base s (fun b => b.take l))))
     | .setByte s p v => (st, showEntries (recoverAll fmt crc (modFile base s (fun b => b.set p v))))
     | .appendBytes s b => (st, showEntries (recoverAll fmt crc (modFile base s (fun x => x ++ b))))
+    | .overwrite s p b => (st, showEntries (recoverAll fmt crc (modFile base s (fun x => overwrite x p b))))
+    | .cutAppend s l b => (st, showEntries (recoverAll fmt crc (modFile base s (fun x => x.take l ++ b))))
     | .trunc T a =>
       let r := truncateBefore fmt crc T a base
       (st, s!"deleted={base.length - r.length} remain {" ".intercalate (r.map (fun p => toString p.1))}")
